@@ -17,6 +17,7 @@
 mod options;
 mod progress;
 
+use std::collections::HashSet;
 use std::io::ErrorKind;
 use std::os::unix::ffi::OsStrExt;
 use std::os::unix::fs::MetadataExt;
@@ -48,17 +49,37 @@ fn init_logging(opts: &Opts) -> Result<()> {
     Ok(())
 }
 
+// The matches of one pattern. `**` follows symbolic links, so a link
+// that leads back into the tree makes the same files match again and
+// again under longer and longer paths (practically without end once
+// there are two such links): give up at the first file that turns up
+// a second time.
+fn resolve_pattern(matches: Paths) -> Result<Vec<PathBuf>> {
+    let mut found = Vec::new();
+    let mut seen = HashSet::new();
+    for path in matches {
+        let path = path?;
+        if let Ok(real) = path.canonicalize() {
+            if !seen.insert(real) {
+                return Err(XcpError::InvalidSource("Pattern matches the same file twice, through a symbolic link.").into());
+            }
+        }
+        found.push(path);
+    }
+    Ok(found)
+}
+
 // Expand a list of file-paths or glob-patterns into a list of concrete paths.
 // FIXME: Should we convert empty glob results into errors?
 fn expand_globs(patterns: &[String]) -> Result<Vec<PathBuf>> {
     let expanded = patterns.iter()
         .map(|s| glob(s.as_str()))
         .collect::<result::Result<Vec<Paths>, _>>()?
-        .iter_mut()
+        .into_iter()
         // Force resolve each glob Paths iterator into a vector of the results...
-        .map::<result::Result<Vec<PathBuf>, _>, _>(Iterator::collect)
+        .map(resolve_pattern)
         // And lift all the results up to the top.
-        .collect::<result::Result<Vec<Vec<PathBuf>>, _>>()?;
+        .collect::<Result<Vec<Vec<PathBuf>>>>()?;
 
     // A name without any pattern characters that matches nothing is
     // a missing file, not an empty glob.
